@@ -89,55 +89,64 @@ theorem isLeftUnary_O (o : Op) (prev next : Option Tok) (l : Bool)
     (hnext : (has o.ty T.increment || has o.ty T.decrement) = true →
               next.isNone = true ∨ isPairEndTok next = true ∨ isOperatorTok next = true)
     (h : isLeftUnary o prev next false = .ok l) : l = false := by
-  -- the three kinds of previous token only differ in four tests
+  -- the three kinds of previous token only differ in a few tests
   have key : ∀ (p : Tok), prev = some p → has p.opType T.pairStart = false →
       has p.opType T.leftUnary = false → has p.opType T.binary = false →
       (has p.opType T.unary = true → has p.opType (T.increment.1 ||| T.decrement.1 ||| T.parentheses.1,
-          T.increment.2 ||| T.decrement.2 ||| T.parentheses.2) = true) → l = false := by
-    intro p hp h1 h2 h3 h4
+          T.increment.2 ||| T.decrement.2 ||| T.parentheses.2) = true) →
+      (has p.opType T.unary = false → tokIsOp p = false ∨ has p.opType T.pairEnd = true) → l = false := by
+    intro p hp h1 h2 h3 h4 h5
     subst hp
     cases next with
     | none => simp [isLeftUnary] at h; exact h
     | some nx =>
       simp only [isLeftUnary, flag_castEnd, flag_pairEnd, flag_operand, Bool.true_and, h1, Bool.false_eq_true,
-        if_false, Bool.and_false, h2, h3, Bool.false_and, Bool.or_false] at h
+        if_false, Bool.and_false, h2, h3, Bool.false_and, Bool.or_false, Bool.not_false, Bool.and_true] at h
       by_cases hpe : has nx.opType T.pairEnd = true
       · simp [hpe] at h; exact h
       · simp only [hpe, Bool.false_eq_true, if_false] at h
-        by_cases hu : has p.opType T.unary = true
-        · simp only [hu, Bool.true_and, Bool.and_self] at h
-          by_cases hou : (has o.ty T.increment || has o.ty T.decrement) = true
-          · simp only [hou, Bool.not_true, Bool.false_eq_true, if_false] at h
+        by_cases hou : (has o.ty T.increment || has o.ty T.decrement) = true
+        · -- ++ / --
+          simp only [hou, Bool.not_true, Bool.and_false, Bool.false_and, Bool.false_eq_true, if_false, if_true] at h
+          have hn : (has nx.opType T.unary || has nx.opType T.binary) = true := by
             rcases hnext hou with hn | hn | hn
             · simp at hn
             · cases nx with
               | op x => simp [isPairEndTok] at hn; exact absurd hn hpe
               | _ => simp [isPairEndTok] at hn
-            · have : (has nx.opType T.unary || has nx.opType T.binary) = true := by simpa [isOperatorTok] using hn
-              simp only [this, bne_self_eq_false, Bool.false_eq_true, if_false, Bool.not_true, h4 hu] at h
-              split at h
-              · simp at h
-              · simp at h; exact h
-          · simp [hou] at h; exact h
-        · simp only [hu, Bool.false_and, Bool.false_eq_true, if_false] at h
-          by_cases hn : (has nx.opType T.unary || has nx.opType T.binary) = true
-          · simp [hn, hu] at h; exact h
-          · simp only [hn, hu] at h
-            by_cases hou : (has o.ty T.increment || has o.ty T.decrement) = true
-            · simp [hou] at h
-            · simp [hou] at h; exact h
+            · simpa [isOperatorTok] using hn
+          by_cases hu : has p.opType T.unary = true
+          · simp only [hu, hn, bne_self_eq_false, Bool.false_eq_true, if_false, Bool.not_true, h4 hu] at h
+            split at h
+            · simp at h
+            · simp at h; exact h
+          · simp [hu, hn] at h; exact h
+        · have hou' : (has o.ty T.increment || has o.ty T.decrement) = false := by simpa using hou
+          simp only [hou', Bool.not_false, Bool.and_true, Bool.true_and, Bool.false_eq_true, if_false] at h
+          by_cases hu : has p.opType T.unary = true
+          · simp [hu] at h; exact h
+          · simp only [hu, Bool.false_eq_true, if_false] at h
+            rcases h5 (by simpa using hu) with h6 | h6
+            · simp [h6] at h; exact h
+            · by_cases h7 : tokIsOp p = true
+              · simp [h7, h6] at h; exact h
+              · simp [h7] at h; exact h
   rcases hprev with ⟨t, ht, hno⟩ | ⟨b, hb, hbe⟩ | ⟨p, hp, hpr⟩
   · have hty : t.opType = T.none_ := by
       cases t with
       | op x => exact absurd rfl (hno x)
       | _ => rfl
+    have hto : tokIsOp t = false := by
+      cases t with
+      | op x => exact absurd rfl (hno x)
+      | _ => rfl
     have nf := none_facts
-    refine key t ht (by rw [hty]; exact nf.1) (by rw [hty]; decide) (by rw [hty]; exact nf.2.2.1) ?_
+    refine key t ht (by rw [hty]; exact nf.1) (by rw [hty]; decide) (by rw [hty]; exact nf.2.2.1) ?_ (fun _ => Or.inl hto)
     rw [hty, nf.2.1]; simp
   · obtain ⟨f1, f2, f3, f4, _⟩ := pairEnd_facts b hbe
-    refine key (.op b) hb f1 f4 f3 ?_
+    refine key (.op b) hb f1 f4 f3 ?_ (fun _ => Or.inr hbe)
     simp [Tok.opType, f2]
-  · obtain ⟨f1, _, f3, f4, f5⟩ := ru_facts p hpr
-    exact key (.op p) hp f1 f4 f3 (fun _ => f5)
+  · obtain ⟨f1, f2, f3, f4, f5⟩ := ru_facts p hpr
+    exact key (.op p) hp f1 f4 f3 (fun _ => f5) (fun h => by simp [Tok.opType, f2] at h)
 
 end Occa.Expr
